@@ -618,7 +618,8 @@ fn iter_array(
         .map(|l| ::std::cmp::min(l, range.len()))
         .unwrap_or_else(|| range.len() - offset);
     range.drain(0..offset);
-    range.resize(limit, Value::Nil.into());
+    // `limit` is an upper bound: never pad past the end of the collection
+    range.truncate(limit);
 
     if reversed {
         range.reverse();
